@@ -44,6 +44,7 @@ FIELD_NAMES = {
     "builtin": ["str", "type", "bytes", "int", "float", "bool", "len", "id", "map", "self", "print", "object", "set", "tuple"],
     "digit_after_underscore": ["address_line_1", "ipv4_address", "v_2", "field_1_2"],
     "upper_run": ["HTTPStatus", "userID", "URL", "XMLData"],
+    "letter_after_digit": ["ipv4address", "sha256sum", "x2y"],
     "underscores": ["_lead", "trail_", "a__b", "x_y_z"],
     "camel": ["fooBar", "someValue2", "aB"],
     "soft_keyword": ["match", "case"],
